@@ -47,8 +47,17 @@ type UnitSpec struct {
 	Stubs    map[string]string `json:"stubs"`
 	SkipInit []string          `json:"skip_init"`
 	FluxStub bool              `json:"flux_stub"` // native build needs the libflux stub module
+	Rewrites []NativeRewrite   `json:"native_rewrites"`
 	Native   string            `json:"native"`    // "samples" (default): validate sample paths natively; "violations": only counterexamples; "off"
 	Entries  []EntrySpec       `json:"entries"`
+}
+
+// NativeRewrite: textual call-site replacement applied, in the native replay build only, to a copy of
+// a /repo file (through the overlay) — the native counterpart of stubbing a std/third-party callee.
+type NativeRewrite struct {
+	File    string      `json:"file"`
+	Replace [][2]string `json:"replace"`
+	Append  string      `json:"append"`
 }
 
 type Spec struct {
@@ -121,6 +130,7 @@ type nativeRunner struct {
 	buildErr string
 	built    bool
 	buildDur time.Duration
+	notes    []string
 }
 
 func goEnv() []string {
@@ -172,6 +182,43 @@ func (nr *nativeRunner) build() {
 	testFile := filepath.Join(cache, "replay_test.go")
 	os.WriteFile(testFile, tb.Bytes(), 0o644)
 	repl[filepath.Join(pd, "zz_verif_replay_test.go")] = testFile
+	allStubs := map[string]string{}
+	for k, v := range nr.unit.Stubs {
+		allStubs[k] = v
+	}
+	for _, e := range nr.unit.Entries {
+		for k, v := range e.Stubs {
+			allStubs[k] = v
+		}
+	}
+	stubRepl, stubNotes := rewriteStubs(allStubs, nr.unit.Package, cache)
+	for k, v := range stubRepl {
+		repl[k] = v
+	}
+	nr.notes = stubNotes
+	for i, rw := range nr.unit.Rewrites {
+		orig := filepath.Join(repoDir, rw.File)
+		src := orig
+		if r, ok := repl[orig]; ok {
+			src = r
+		}
+		b, err := os.ReadFile(src)
+		if err != nil {
+			nr.notes = append(nr.notes, "native rewrite: "+err.Error())
+			continue
+		}
+		txt := string(b)
+		for _, pr := range rw.Replace {
+			if !strings.Contains(txt, pr[0]) {
+				nr.notes = append(nr.notes, "native rewrite: pattern not found in "+rw.File+": "+pr[0])
+			}
+			txt = strings.ReplaceAll(txt, pr[0], pr[1])
+		}
+		txt += "\n" + rw.Append
+		dst := filepath.Join(cache, fmt.Sprintf("rewrite%d_%s", i, filepath.Base(rw.File)))
+		os.WriteFile(dst, []byte(txt), 0o644)
+		repl[orig] = dst
+	}
 	ovb, _ := json.Marshal(map[string]any{"Replace": repl})
 	ovFile := filepath.Join(cache, "overlay.json")
 	os.WriteFile(ovFile, ovb, 0o644)
